@@ -395,6 +395,7 @@ package geojson
 //@   ret have E: poly != nil ==> (polyOf(g).Exterior == poly.Exterior && polyOf(g).Holes == poly.Holes)
 //@   ret have Z: poly == nil ==> (polyOf(g).Exterior == nil && len(polyOf(g).Holes) == 0)
 //@   ret have NN: polyOf(g) != nil
+//@   ret use polyInvKeep(poly)
 //@   ret have PO: poly != nil ==> geometry.PolyInv(poly)   // framing: the stores went to the fresh object only
 //@   ret have PI: geometry.PolyInv(polyOf(g))
 //@   ret have K: isPolygonK(g)
